@@ -94,6 +94,17 @@ class K(object):
         return ('call', a, b, rest, sorted(kw.items()))
 
 
+class M(object):
+    def __init__(self):
+        self.__count_ = 5            # name-mangled (two leading underscores, ONE trailing underscore)
+
+    def meth(self, a, b=2, *rest, **kw):
+        COUNTS.append('mmeth')
+        if a:
+            a = a + 0
+        return ('mmeth', self.__count_ + a, b, rest, sorted(kw.items()))
+
+
 def gen(a, b=2, *rest, **kw):
     COUNTS.append('gen')
     yield ('gen', a, b, rest, sorted(kw.items()))
@@ -115,7 +126,9 @@ KINDS = ('function', 'lambda', 'bound_method', 'unbound_method', 'classmethod', 
          # a C-implemented bound method that merely has the *name* of a supported builtin; a function whose local generator
          # yields inside control flow (rejected by the feature check: runs as it is, with one warning); two wrappers made by
          # the same functools.wraps decorator (one code object): around an allow-listed function / around a user function
-         'c_method_builtin_name', 'local_generator', 'wraps_allowlisted', 'wraps_user')
+         'c_method_builtin_name', 'local_generator', 'wraps_allowlisted', 'wraps_user',
+         # a method using a name-mangled attribute (rejected by the feature check like the local generator)
+         'mangled_method')
 SHAPES = ('args', 'kwargs_none', 'kwargs_empty', 'kwargs', 'star')
 OPTS = ((True, False, True), (False, False, False), (True, True, True), (False, True, True))   # (recursive, user_requested, icuc)
 STATUSES = ('UNSPECIFIED', 'ENABLED', 'DISABLED')
@@ -313,6 +326,8 @@ def make_callable(kind):
     return decimal.Context(prec=2).abs, None
   if kind == 'local_generator':
     return mod.localgen, 'localgen'
+  if kind == 'mangled_method':
+    return mod.M().meth, 'mmeth'
   if kind == 'wraps_allowlisted':
     import copy
     return mod.passthrough(copy.copy), None
@@ -452,7 +467,7 @@ def check_row(item, double_call=False, reset=True, remembered=False):
   exp = expected_converted(kind, opt, status)
   if was != exp:
     viol.append(('policy', 'converted=%s, the documented rules say %s' % (was, exp)))
-  if kind == 'local_generator':
+  if kind in ('local_generator', 'mangled_method'):
     # the feature check rejects it: one warning per (function, options) when a conversion is attempted, remembered afterwards
     exp_w = 1 if (status != 'DISABLED' and opt[2] and not remembered) else 0
     if len(_S['warnings']) != exp_w:
